@@ -633,3 +633,11 @@ M('C09', 'lineage-lambda-before-propensities', L,
   "\t\t\tself.interface.compute_lineage_propensities(&self.c_current_state[0], &self.c_propensity[0], current_volume, current_time)\n\n\t\t\tLambda = cyrandom.array_sum(&self.c_propensity[0], self.num_propensities)\n",
   "\t\t\tLambda = cyrandom.array_sum(&self.c_propensity[0], self.num_propensities)\n\t\t\tself.interface.compute_lineage_propensities(&self.c_current_state[0], &self.c_propensity[0], current_volume, current_time)\n\n",
   'fire', 'R9.3-rates-after-rules/Lineage')
+M('C19', 'revert-dead-at-birth-row', L,
+  """					for species_index in range(self.num_species):
+						self.c_results[current_index,species_index] = self.c_current_state[species_index]
+					self.c_volume_trace[current_index] = current_volume
+					timepoints = timepoints[:current_index+1]
+""",
+  """					timepoints = timepoints[:current_index+1]
+""", 'fire', 'R19.4-rows-written')
